@@ -165,6 +165,18 @@ func c13SvcIndex(ver int, kind string, variant int, pad int) []byte {
 	return []byte(s + "}\n")
 }
 
+// c13Limit is the configured size limit of a list: the two indexes have limits of
+// their own, different from each other and from that of the lists.
+func c13Limit(list string) int {
+	switch list {
+	case "ridx":
+		return c13MaxSize / 2
+	case "sidx":
+		return c13MaxSize * 3 / 4
+	}
+	return c13MaxSize
+}
+
 // c13Body returns the text of version ver of a list.
 func c13Body(list string, ver int, kind string, variant int, pad int, rlURL func(list string, iv int) string) []byte {
 	switch list {
@@ -403,7 +415,8 @@ func (nw *c13Net) set(ver map[string]int, faults map[string]string, variants map
 		}
 		v := ver[l]
 		body := c13Body(l, v, kind, variants[l], 0, nw.rlURL)
-		extra := []int{c13MaxSize - len(body) + 1, c13MaxSize, 3 * c13MaxSize}[variants[l]%3]
+		lim := c13Limit(l)
+		extra := []int{lim - len(body) + 1, lim, 3 * lim}[variants[l]%3]
 		over := c13Body(l, v, kind, variants[l], extra, nw.rlURL)
 		ep.mu.Lock()
 		ep.fault, ep.variant, ep.body, ep.over, ep.log = f, variants[l], body, over, nil
@@ -507,13 +520,13 @@ func c13Start(dir string, urls func(list string) *url.URL, timeout time.Duration
 	s, err := New(&Config{
 		BaseLogger: logger, Logger: logger,
 		BlockedServices: &ConfigBlockedServices{
-			IndexURL: urls("sidx"), IndexMaxSize: c13MaxSize * datasize.B, IndexRefreshTimeout: timeout,
+			IndexURL: urls("sidx"), IndexMaxSize: datasize.ByteSize(c13Limit("sidx")) * datasize.B, IndexRefreshTimeout: timeout,
 			IndexStaleness: svcStale, ResultCacheCount: 100, ResultCacheEnabled: true, Enabled: true,
 		},
 		Custom:     &ConfigCustom{CacheCount: 10},
 		HashPrefix: &ConfigHashPrefix{Dangerous: hp},
 		RuleLists: &ConfigRuleLists{
-			IndexURL: urls("ridx"), IndexMaxSize: c13MaxSize * datasize.B, MaxSize: c13MaxSize * datasize.B,
+			IndexURL: urls("ridx"), IndexMaxSize: datasize.ByteSize(c13Limit("ridx")) * datasize.B, MaxSize: c13MaxSize * datasize.B,
 			IndexRefreshTimeout: timeout, IndexStaleness: stale, RefreshTimeout: timeout, Staleness: stale,
 			ResultCacheCount: 100, ResultCacheEnabled: true,
 		},
